@@ -1,6 +1,6 @@
 (* Correspondence cases and output checkers for _malign and the pairwise.py wrappers. *)
 From Coq Require Import QArith Qabs ZArith List Bool Arith.
-From LV Require Import Common.Cases Align.DP Align.Calign Align.CalignExec Align.Malign.
+From LV Require Import Common.Cases Align.DP Align.Calign Align.LibScore Align.CalignExec Align.Opt Align.Malign.
 Import ListNotations.
 
 
@@ -49,7 +49,60 @@ Inductive mcase :=
 | MED (A B : list Z) (out : Z) (norm : option Q)
 | MRED (A B rA rB : list Z) (out : Z) (norm : Q).
 
+(* C03 on implementation outputs: brute force over all move lists (short sequences) *)
+Definition small (A B : list Z) (k : nat) : bool := (length A <=? k)%nat && (length B <=? k)%nat.
+Definition sP (A B : list Z) (sc : list (Z * Z * Q)) (gap : Q) :=
+  scoreP (fun _ _ => gap) (fun _ _ => gap) (fun i j => sAB A B sc i j).
+Definition nw_brute (A B : list Z) (sc : list (Z * Z * Q)) (gap : Q) : Q :=
+  match map (sP A B sc gap 0 0) (all_moves (length B + length A) (length B) (length A)) with
+  | [] => 0 | x :: t => qmaxl t x end.
+Definition sw_brute (A B : list Z) (sc : list (Z * Z * Q)) (gap : Q) : Q :=
+  let nb := length B in let na := length A in
+  qmaxl (flat_map (fun i0 => flat_map (fun j0 => flat_map (fun di => flat_map (fun dj =>
+           map (sP A B sc gap i0 j0) (all_moves (di + dj) di dj))
+           (seq 0 (S (na - j0)))) (seq 0 (S (nb - i0)))) (seq 0 (S na))) (seq 0 (S nb))) 0.
+Definition zminl (l : list Z) (d : Z) : Z := fold_left Z.min l d.
+Definition ed_brute (A B : list Z) : Z :=
+  match map (edit_cost A B 0 0) (all_moves (length B + length A) (length B) (length A)) with
+  | [] => 0%Z | x :: t => zminl t x end.
+Definition sw_sim (r : sw_result) : option Q := match r with SW _ _ _ _ _ _ s => Some s | SWError => None end.
+
+Definition mcase_opt_ok (c : mcase) : bool :=
+  match c with
+  | MNW A B sc gap out =>
+      if small A B 4 then oq_eqb (result_sim out) (Some (nw_brute A B sc gap)) else true
+  | MSW A B sc gap out =>
+      if small A B 3 && Qle_bool gap 0 then oq_eqb (sw_sim out) (Some (sw_brute A B sc gap)) else true
+  | MWE A B sc gap out =>
+      if small A B 3 && Qle_bool gap 0 then
+        match out with
+        | [] => Qeq_bool (sw_brute A B sc gap) 0
+        | (_, _, s) :: _ => Qeq_bool s (sw_brute A B sc gap)
+        end
+      else true
+  | MED A B out _ =>
+      (Z.abs (Z.of_nat (length A) - Z.of_nat (length B)) <=? out)%Z &&
+      (out <=? Z.max (Z.of_nat (length A)) (Z.of_nat (length B)))%Z &&
+      (if small A B 5 then Z.eqb out (ed_brute A B) else true)
+  | MRED _ _ _ _ _ _ => true
+  end.
+
+(* score-only correspondence *)
+Definition mcase_score_ok (c : mcase) : bool :=
+  match c with
+  | MNW A B sc gap out => oq_eqb (result_sim (nw_align A B sc gap)) (result_sim out)
+  | MSW A B sc gap out => oq_eqb (sw_sim (sw_align A B sc gap)) (sw_sim out)
+  | MWE A B sc gap out =>
+      match we_align A B sc gap with
+      | Some l => list_eqb Qeq_bool (map snd l) (map snd out)
+      | None => false end
+  | MED A B out norm => Z.eqb (edit_dist A B) out
+  | MRED A B rA rB out norm =>
+      match restricted_edit_dist A B rA rB with Some (s, _) => Z.eqb s out | None => false end
+  end.
+
 Definition mcase_code (c : mcase) : nat :=
+  bit 3 (mcase_opt_ok c) + bit 5 (mcase_score_ok c) +
   match c with
   | MNW A B sc gap out =>
       bit 0 (result_eqb (nw_align A B sc gap) out) + bit 1 (result_validb A B out)
